@@ -9,7 +9,9 @@ pub mod c07;
 pub mod c08;
 pub mod c09;
 pub mod c10;
+pub mod c11;
 pub mod c13;
+pub mod c14;
 pub mod c15;
 pub mod c16;
 pub mod c17;
@@ -27,7 +29,9 @@ pub const ALL: &[(&str, RunFn)] = &[
     ("C08", c08::run),
     ("C09", c09::run),
     ("C10", c10::run),
+    ("C11", c11::run),
     ("C13", c13::run),
+    ("C14", c14::run),
     ("C15", c15::run),
     ("C16", c16::run),
     ("C17", c17::run),
